@@ -5,7 +5,6 @@ R2 every unbounded wait of the parent observes worker liveness
    (polling loops, blocking puts on bounded queues, joins on error paths)
 R3 no handler in a worker / serial sibling / stage swallows a processing error
 R4 context managers wrapped around the processing loops do not swallow exceptions
-R5 an explicit request for serial processing is never upgraded to parallel mode
 """
 import ast
 
@@ -46,7 +45,6 @@ def run(run):
     run.floor("C19.R2", 5)
     run.floor("C19.R3", 5)
     run.floor("C19.R4", 1)
-    run.floor("C19.R5", 1)
     seen_funcs = set()
     for st in stages:
         run.note_func(st.func)
@@ -66,7 +64,6 @@ def run(run):
                     run.note_func(f)
                     _r3_handlers(run, f, "serial path", [])
     _r4_context_managers(run, stages)
-    _r5_parallelism(run)
 
 
 # ---------------------------------------------------------------------------
